@@ -1,6 +1,7 @@
 package props
 
 import (
+	"bufio"
 	"bytes"
 	"encoding/hex"
 	"fmt"
@@ -89,6 +90,24 @@ func C17(tier string) {
 			r.Violate(key+"/read", fmt.Sprintf("ReadProfile failed on a well-formed profile: %v [%s]", err, what), cs(), nil)
 			return
 		}
+		// the same profile from a buffered reader over a source that hands out at most
+		// 1000 bytes per call (a file or pipe behind bufio): same tags, same description
+		{
+			var p2 *icc.Profile
+			var err2 error
+			r.Guard(key+"/panic", func() {
+				p2, err2 = icc.NewProfileReader(bufio.NewReader(&dribble{r: bytes.NewReader(data), n: 1000})).ReadProfile()
+			})
+			if err2 != nil || p2 == nil {
+				r.Violate(key+"/read-buffered", fmt.Sprintf("ReadProfile failed on a well-formed profile read through bufio over 1000-byte deliveries: %v [%s]", err2, what), cs(), nil)
+				return
+			}
+			d1, e1 := p.Description()
+			d2, e2 := p2.Description()
+			if oneOf != nil && len(oneOf) == 1 && (d1 != d2 || (e1 == nil) != (e2 == nil)) {
+				r.Violate(key+"/description-buffered", fmt.Sprintf("Description differs when the profile is read through bufio over 1000-byte deliveries: %q (%v) vs %q (%v) [%s]", d2, e2, d1, e1, what), cs(), nil)
+			}
+		}
 		if oneOf == nil {
 			return
 		}
@@ -129,6 +148,28 @@ func C17(tier string) {
 	for n := 0; n <= 64; n++ {
 		if n == 0 {
 			try("layout/count0", gen.ICCLayout{Major: 4}.Build(), nil, "no tags")
+			// the header's class, colour space and connection space fields do not
+			// decide whether the description can be read: every device class (a
+			// device link carries a device colour space in the PCS field) x a few
+			// colour spaces in both fields
+			for _, class := range []string{"scnr", "mntr", "prtr", "link", "spac", "abst", "nmcl"} {
+				for _, cspace := range []string{"RGB ", "CMYK", "GRAY", "Lab ", "XYZ ", "6CLR"} {
+					for _, pcs := range []string{"XYZ ", "Lab ", "CMYK", "RGB ", "GRAY"} {
+						if class != "link" && pcs != "XYZ " && pcs != "Lab " {
+							continue
+						}
+						name := "Class " + class + " " + cspace + "->" + pcs
+						for ver, blk := range descBlocks(name) {
+							l := gen.ICCLayout{Major: map[string]byte{"v2": 2, "v4": 4}[ver], Tags: []gen.ICCTag{{Sig: gen.Sig("desc"), Block: 0}}, Blocks: [][]byte{blk}}
+							data := l.Build()
+							copy(data[12:], class)
+							copy(data[16:], cspace)
+							copy(data[20:], pcs)
+							try("layout/class-and-spaces", data, []string{name}, fmt.Sprintf("%s profile, device class %q, data colour space %q, PCS field %q", ver, class, cspace, pcs))
+						}
+					}
+				}
+			}
 			continue
 		}
 		var positions []int
